@@ -2,8 +2,10 @@
 (* C16 - trace specification: the byte stream a raw socket client read from the real HttpServer, split into *)
 (* responses by the harness' strict reference splitter (harness/drv_httppipe.cpp), judged against what the   *)
 (* property demands of one persistent connection.                                                            *)
-(*   Begin{reqs}     the pipeline that was written in ONE send: records [k, n, close, sp] (HttpPipeline.tla;  *)
-(*                   close = the Connection field contains the token close in whatever spelling sp)           *)
+(*   Begin{reqs}     the pipeline that was written (in one send, or cut into two or three segments with a     *)
+(*                   pause - the property does not depend on it): records [k, n, close, sp, tr]               *)
+(*                   (HttpPipeline.tla; close = the Connection field contains the token close in whatever     *)
+(*                   spelling sp; tr = trailer fields of a chunked request - one complete request whatever tr) *)
 (*   Release{i}      the harness lets the (gated) handler of request i return                                 *)
 (*   Resp{for, st, cl, bl, fill}   the next complete response on the wire: for = request id echoed by the     *)
 (*                   handler in X-Req (0: a response the server produced without a handler), status, the      *)
@@ -45,7 +47,7 @@ vars == <<l, reqs, released, answered, used, xn, ok>>
 
 Init == l = 1 /\ reqs = <<>> /\ released = {} /\ answered = <<>> /\ used = {} /\ xn = 0 /\ ok = TRUE
 
-Gated(r) == r.k \in {"G", "H", "P", "C", "T", "R", "L", "S204", "S304", "HS204", "HS304"}
+Gated(r) == r.k \in {"G", "H", "P", "C", "T", "R", "L", "S204", "S304", "HS204", "HS304", "D", "HD"}
 Closing(r) == r.close \/ r.k \in {"B", "U"}
 RespOptional(r) == r.k \in {"B", "U"}
 N == Len(reqs)
@@ -62,6 +64,12 @@ Fits(ev, j) ==
     /\ CASE r.k \in {"G", "P", "C", "R"} -> ev.st = 200 /\ ev.cl = r.n /\ ev.bl = r.n /\ ev.fill
          [] r.k = "L" -> ev.st = 200 /\ ev.cl = r.n * 1024 /\ ev.bl = r.n * 1024 /\ ev.fill
          [] r.k = "H" -> ev.st = 200 /\ ev.cl = r.n /\ ev.bl = 0
+         \* no route, the default handler picks 404 and sets n octets: GET gets them, HEAD gets no body octets
+         [] r.k = "D" -> ev.st = 404 /\ ev.cl = r.n /\ ev.bl = r.n /\ ev.fill
+         [] r.k = "HD" -> ev.st = 404 /\ ev.bl = 0
+         \* HEAD answered without a handler (405: the path exists under another method; built-in 404): no body octets
+         [] r.k = "HM" -> ev.st = 405 /\ ev.bl = 0
+         [] r.k = "HN" -> ev.st = 404 /\ ev.bl = 0
          \* content set through the response API, then a bodiless status: either no body octets at all, or a
          \* Content-Length that is exactly the octets that follow (the property's wording) - never stray octets
          [] r.k \in {"S204", "S304"} -> (ev.st = (IF r.k = "S204" THEN 204 ELSE 304))
